@@ -40,6 +40,11 @@ def cfgListCore (W : World) (fuel : Nat) (s' : Schema) (path k : String) (c : Cf
     | none => { cfg := c, err := some (.raw "IndexError"), next := n1 }
     | some cs' => { cfg := replaceAt fuel c dotted (fun o => o.set k (.nodes cs')), next := n1 }
 
+/-- an index assignment whose index names no item: refused before the new item is looked at (F76) -/
+def noSlot (cs : List Cfg) : ListMode → Bool
+  | .setIdx i => (PyList.resolveIdx cs.length i).isNone
+  | _ => false
+
 /-- `cfg[dotted].append / insert / __setitem__` with a new item value -/
 def cfgListOp (W : World) (fuel : Nat) (s : Schema) (c : Cfg) (dotted : List Char) (mode : ListMode) (item : Val) (n : Nat) : Out :=
   match walk fuel s "" c dotted with
@@ -49,7 +54,9 @@ def cfgListOp (W : World) (fuel : Nat) (s : Schema) (c : Cfg) (dotted : List Cha
     | some (.cfgList s' _ _ _) =>
       (match (owner.get k).bind heldItems with
        | none => { cfg := c, err := some (match mode with | .setIdx _ => .raw "TypeError" | _ => .attribute), next := n }
-       | some cs => cfgListCore W fuel s' path k c dotted cs mode item n)
+       | some cs =>
+         if noSlot cs mode then { cfg := c, err := some (.raw "IndexError"), next := n }
+         else cfgListCore W fuel s' path k c dotted cs mode item n)
     | _ => { cfg := c, err := some .attribute, next := n }
 
 theorem cfgListCore_rejected_unchanged (W : World) (fuel : Nat) (s' : Schema) (path k : String) (c : Cfg) (dotted : List Char)
@@ -94,7 +101,11 @@ theorem cfgListOp_rejected_unchanged (W : World) (fuel : Nat) (s : Schema) (c : 
         | none => rfl
         | some cs =>
           simp only [hh] at h ⊢
-          exact cfgListCore_rejected_unchanged W fuel s' path k c dotted cs mode item n e h
+          cases hn : noSlot cs mode with
+          | true => simp [hn]
+          | false =>
+            simp only [hn, Bool.false_eq_true, if_false] at h ⊢
+            exact cfgListCore_rejected_unchanged W fuel s' path k c dotted cs mode item n e h
       | _ => rfl
 
 end Cinco.Config
